@@ -1,5 +1,5 @@
 /* C12 tier B: the tok class produces the token list of the quoting grammar modulo its trimming, and agrees
- * with spiftool_split token for token modulo that trimming, for every input of length <= 4 (quick) / 6
+ * with spiftool_split token for token modulo that trimming, for every input of length <= 3 (quick) / 6
  * (thorough) over {a, b, space, ':', ''', '"', '\'} and the delimiter sets NULL / ":" / " :" (chosen
  * nondeterministically inside each unit).  Memory-safety obligations of everything executed (tok.c, str.c,
  * dlinked_list.c, obj.c, strings.c) are part of each unit; input and delimiter strings end at the last byte
@@ -39,11 +39,11 @@
 
 /*@unit
 name: tok.clean
-define: V_CLASS=0, VERIF_MAXLEN_Q=4, VERIF_MAXLEN_T=6, VS_OBJS=1024
+define: V_CLASS=0, VERIF_MAXLEN_Q=3, VERIF_MAXLEN_T=6, VS_OBJS=1024
 src: tok.c, str.c, dlinked_list.c, obj.c
 tier: B
-bound: input length <= 4 (quick tier) / <= 6 (thorough tier) over {a,b,space,:,',",\}; delimiter sets NULL, ":", " :"; inputs of class clean; loops unwound 6 / 8 (token loop 5)
-unwind: 6
+bound: input length <= 3 (quick tier) / <= 6 (thorough tier) over {a,b,space,:,',",\}; delimiter sets NULL, ":", " :"; inputs of class clean; loops unwound 5 / 8 (token loop 5)
+unwind: 5
 unwind_thorough: 8
 flags: --unwindset spif_tok_eval.5:5
 objbits: 10
@@ -56,11 +56,11 @@ funcs: spif_tok_eval, spif_tok_new_from_ptr, spif_tok_set_sep, spif_str_new_from
 */
 /*@unit
 name: tok.defects
-define: V_CLASS=6, VERIF_MAXLEN_Q=4, VERIF_MAXLEN_T=6, VS_OBJS=1024
+define: V_CLASS=6, VERIF_MAXLEN_Q=3, VERIF_MAXLEN_T=6, VS_OBJS=1024
 src: tok.c, str.c, dlinked_list.c, obj.c
 tier: B
-bound: input length <= 4 (quick tier) / <= 6 (thorough tier) over {a,b,space,:,',",\}; delimiter sets NULL, ":", " :"; inputs of any class other than clean (the five classes below together); loops unwound 6 / 8 (token loop 5)
-unwind: 6
+bound: input length <= 3 (quick tier) / <= 6 (thorough tier) over {a,b,space,:,',",\}; delimiter sets NULL, ":", " :"; inputs of any class other than clean (the five classes below together); loops unwound 5 / 8 (token loop 5)
+unwind: 5
 unwind_thorough: 8
 flags: --unwindset spif_tok_eval.5:5
 objbits: 10
@@ -73,11 +73,11 @@ funcs: spif_tok_eval, spif_tok_new_from_ptr, spif_tok_set_sep, spif_str_new_from
 */
 /*@unit
 name: tok.mixed
-define: V_CLASS=1, VERIF_MAXLEN_Q=4, VERIF_MAXLEN_T=6, VS_OBJS=1024
+define: V_CLASS=1, VERIF_MAXLEN_Q=3, VERIF_MAXLEN_T=6, VS_OBJS=1024
 src: tok.c, str.c, dlinked_list.c, obj.c
 tier: B
-bound: input length <= 4 (quick tier) / <= 6 (thorough tier) over {a,b,space,:,',",\}; delimiter sets NULL, ":", " :"; inputs of class mixed; loops unwound 6 / 8 (token loop 5)
-unwind: 6
+bound: input length <= 3 (quick tier) / <= 6 (thorough tier) over {a,b,space,:,',",\}; delimiter sets NULL, ":", " :"; inputs of class mixed; loops unwound 5 / 8 (token loop 5)
+unwind: 5
 unwind_thorough: 8
 flags: --unwindset spif_tok_eval.5:5
 objbits: 10
@@ -90,11 +90,11 @@ funcs: spif_tok_eval, spif_tok_new_from_ptr, spif_tok_set_sep, spif_str_new_from
 */
 /*@unit
 name: tok.trailbs
-define: V_CLASS=2, VERIF_MAXLEN_Q=4, VERIF_MAXLEN_T=6, VS_OBJS=1024
+define: V_CLASS=2, VERIF_MAXLEN_Q=3, VERIF_MAXLEN_T=6, VS_OBJS=1024
 src: tok.c, str.c, dlinked_list.c, obj.c
 tier: B
-bound: input length <= 4 (quick tier) / <= 6 (thorough tier) over {a,b,space,:,',",\}; delimiter sets NULL, ":", " :"; inputs of class trailbs; loops unwound 6 / 8 (token loop 5)
-unwind: 6
+bound: input length <= 3 (quick tier) / <= 6 (thorough tier) over {a,b,space,:,',",\}; delimiter sets NULL, ":", " :"; inputs of class trailbs; loops unwound 5 / 8 (token loop 5)
+unwind: 5
 unwind_thorough: 8
 flags: --unwindset spif_tok_eval.5:5
 objbits: 10
@@ -107,11 +107,11 @@ funcs: spif_tok_eval, spif_tok_new_from_ptr, spif_tok_set_sep, spif_str_new_from
 */
 /*@unit
 name: tok.empty
-define: V_CLASS=3, VERIF_MAXLEN_Q=4, VERIF_MAXLEN_T=6, VS_OBJS=1024
+define: V_CLASS=3, VERIF_MAXLEN_Q=3, VERIF_MAXLEN_T=6, VS_OBJS=1024
 src: tok.c, str.c, dlinked_list.c, obj.c
 tier: B
-bound: input length <= 4 (quick tier) / <= 6 (thorough tier) over {a,b,space,:,',",\}; delimiter sets NULL, ":", " :"; inputs of class empty; loops unwound 6 / 8 (token loop 5)
-unwind: 6
+bound: input length <= 3 (quick tier) / <= 6 (thorough tier) over {a,b,space,:,',",\}; delimiter sets NULL, ":", " :"; inputs of class empty; loops unwound 5 / 8 (token loop 5)
+unwind: 5
 unwind_thorough: 8
 flags: --unwindset spif_tok_eval.5:5
 objbits: 10
@@ -124,11 +124,11 @@ funcs: spif_tok_eval, spif_tok_new_from_ptr, spif_tok_set_sep, spif_str_new_from
 */
 /*@unit
 name: tok.blank
-define: V_CLASS=4, VERIF_MAXLEN_Q=4, VERIF_MAXLEN_T=6, VS_OBJS=1024
+define: V_CLASS=4, VERIF_MAXLEN_Q=3, VERIF_MAXLEN_T=6, VS_OBJS=1024
 src: tok.c, str.c, dlinked_list.c, obj.c
 tier: B
-bound: input length <= 4 (quick tier) / <= 6 (thorough tier) over {a,b,space,:,',",\}; delimiter sets NULL, ":", " :"; inputs of class blank; loops unwound 6 / 8 (token loop 5)
-unwind: 6
+bound: input length <= 3 (quick tier) / <= 6 (thorough tier) over {a,b,space,:,',",\}; delimiter sets NULL, ":", " :"; inputs of class blank; loops unwound 5 / 8 (token loop 5)
+unwind: 5
 unwind_thorough: 8
 flags: --unwindset spif_tok_eval.5:5
 objbits: 10
@@ -141,11 +141,11 @@ funcs: spif_tok_eval, spif_tok_new_from_ptr, spif_tok_set_sep, spif_str_new_from
 */
 /*@unit
 name: tok.multi
-define: V_CLASS=5, VERIF_MAXLEN_Q=4, VERIF_MAXLEN_T=6, VS_OBJS=1024
+define: V_CLASS=5, VERIF_MAXLEN_Q=3, VERIF_MAXLEN_T=6, VS_OBJS=1024
 src: tok.c, str.c, dlinked_list.c, obj.c
 tier: B
-bound: input length <= 4 (quick tier) / <= 6 (thorough tier) over {a,b,space,:,',",\}; delimiter sets NULL, ":", " :"; inputs of class multi; loops unwound 6 / 8 (token loop 5)
-unwind: 6
+bound: input length <= 3 (quick tier) / <= 6 (thorough tier) over {a,b,space,:,',",\}; delimiter sets NULL, ":", " :"; inputs of class multi; loops unwound 5 / 8 (token loop 5)
+unwind: 5
 unwind_thorough: 8
 flags: --unwindset spif_tok_eval.5:5
 objbits: 10
